@@ -16,9 +16,10 @@ def gen(rng: random.Random, tier: str):
         yield {"ids": ids, "entities": ents, "str_ids": rng.random() < 0.4, "list_lens": [rng.randint(0, 3) for _ in ents],
                "scalar_form": rng.choice(["arrays", "series", "frame"]),
                "list_form": rng.choice(["python", "arrow", "sliced", "nulls"]), "list_lead": rng.randint(1, 2),
-               "vec_entities": vents, "vec_form": rng.choice(["numpy", "arrow", "arrow-null"]), "vec_null": rng.randrange(8),
+               "vec_entities": vents, "vec_form": rng.choice(["numpy", "numpy-F", "arrow", "arrow-null"]), "vec_null": rng.randrange(8),
                "sp_entities": sents, "late": rng.sample([x for x in range(100, 120)], rng.randint(0, 2)) if rng.random() < 0.3 else [],
-               "select": rng.sample(ids, rng.randint(0, k)), "dim_names": rng.random() < 0.5}
+               "select": rng.sample(ids, rng.randint(0, k)), "dim_names": rng.random() < 0.5,
+               "scalar_dict": rng.random() < 0.3, "list_dict": rng.random() < 0.3}
 
 def _vec(e):      # the dense vector of entity e (entity 7, 17, … get the zero vector)
     return [0.0, 0.0, 0.0] if e % 10 == 7 else [e + 0.5, e * 2.0, -float(e)]
@@ -41,21 +42,24 @@ def run(case: dict, lean: Lean) -> Outcome:
     try:          # a failure of the implementation while the attributes are added is an outcome of the case
         # ---- scalar
         sf = case.get("scalar_form", "arrays")
-        if sf == "series": b.add_scalar_attribute("item", "title", pd.Series(vals, index=pd.Index(ents, dtype=object if case["str_ids"] else "int64"), dtype=object))
-        elif sf == "frame": b.add_scalar_attribute("item", "title", pd.DataFrame({"item_id": pd.Series(ents, dtype=object if case["str_ids"] else "int64"), "title": pd.Series(vals, dtype=object)}))
-        else: b.add_scalar_attribute("item", "title", ents, vals)
+        sd = {"dictionary": True} if case.get("scalar_dict") else {}          # dictionary-encoded storage: same values, another Arrow type
+        ld = {"dictionary": True} if case.get("list_dict") else {}
+        if sd or ld: classes.append("dictionary-encoded attribute")
+        if sf == "series": b.add_scalar_attribute("item", "title", pd.Series(vals, index=pd.Index(ents, dtype=object if case["str_ids"] else "int64"), dtype=object), **sd)
+        elif sf == "frame": b.add_scalar_attribute("item", "title", pd.DataFrame({"item_id": pd.Series(ents, dtype=object if case["str_ids"] else "int64"), "title": pd.Series(vals, dtype=object)}), **sd)
+        else: b.add_scalar_attribute("item", "title", ents, vals, **sd)
         # ---- list
         lf = case.get("list_form", "python"); lead = []
         list_nulls = set()
         if ents:
-            if lf == "arrow": b.add_list_attribute("item", "tags", ents, pa.array(lists, type=pa.list_(pa.string())))
+            if lf == "arrow": b.add_list_attribute("item", "tags", ents, pa.array(lists, type=pa.list_(pa.string())), **ld)
             elif lf == "sliced":
                 lead_lists = [[f"lead{j}"] for j in range(case.get("list_lead", 1))]; lead = [x for l in lead_lists for x in l]
-                b.add_list_attribute("item", "tags", ents, pa.array(lead_lists + lists, type=pa.list_(pa.string())).slice(len(lead_lists)))
+                b.add_list_attribute("item", "tags", ents, pa.array(lead_lists + lists, type=pa.list_(pa.string())).slice(len(lead_lists)), **ld)
             elif lf == "nulls":
                 list_nulls = {i for i in range(len(ents)) if i % 3 == 1}
-                b.add_list_attribute("item", "tags", ents, pa.array([None if i in list_nulls else l for i, l in enumerate(lists)], type=pa.list_(pa.string())))
-            else: b.add_list_attribute("item", "tags", ents, lists)
+                b.add_list_attribute("item", "tags", ents, pa.array([None if i in list_nulls else l for i, l in enumerate(lists)], type=pa.list_(pa.string())), **ld)
+            else: b.add_list_attribute("item", "tags", ents, lists, **ld)
         # ---- dense vector
         vents_raw = case.get("vec_entities", []); vents = [conv(x) for x in vents_raw]; vf = case.get("vec_form", "numpy")
         vnull = {case.get("vec_null", 0) % len(vents)} if (vf == "arrow-null" and vents) else set()
@@ -63,6 +67,8 @@ def run(case: dict, lean: Lean) -> Outcome:
         vec_added = False
         if vents:
             if vf == "numpy": data = np.array([_vec(e) for e in vents_raw], dtype=np.float64)
+            elif vf == "numpy-F":          # the same matrix in column-major memory (what `.T` of a factorisation or np.asfortranarray gives)
+                data = np.asfortranarray(np.array([_vec(e) for e in vents_raw], dtype=np.float64)); classes.append("column-major matrix")
             else: data = pa.array([None if i in vnull else _vec(e) for i, e in enumerate(vents_raw)], type=pa.list_(pa.float64(), DIM))
             b.add_vector_attribute("item", "emb", vents, data, dim_names=names); vec_added = True
         # ---- sparse vector
@@ -118,6 +124,11 @@ def run(case: dict, lean: Lean) -> Outcome:
             po = _outcome(lambda: a.pandas(missing="omit"))
             if isinstance(po, dict): failed.append(f"{attr}: pandas(omit) raises {po['error']}")
             elif list(po.index) != [e for e, w in zip(vocab, want) if w is not None]: failed.append(f"{attr}: pandas(omit) index differs")
+            if kind == "scalar":
+                m = _outcome(lambda: a.numpy())
+                if isinstance(m, dict): failed.append(f"{attr}: numpy() raises {m['error']}")
+                # (numpy() promises nothing about the entries of entities without a value — only the defined ones are compared)
+                elif len(m) != len(want) or any(w is not None and x != w for x, w in zip(m.tolist(), want)): failed.append(f"{attr}: numpy() differs")
         if kind == "dense":
             m = _outcome(lambda: a.numpy())
             if isinstance(m, dict): failed.append(f"{attr}: numpy() raises {m['error']}")
@@ -212,7 +223,7 @@ def shrink(case: dict):
         yield c
     used = set(case["entities"]) | set(case.get("vec_entities", [])) | set(case.get("sp_entities", [])) | set(case.get("select", []))
     for i in range(len(case["ids"])):
-        if case["ids"][i] not in used:
+        if case["ids"][i] not in used and len(case["ids"]) > 1:          # (the generator never produces a dataset without entities)
             c = dict(case); c["ids"] = case["ids"][:i] + case["ids"][i+1:]; yield c
     if case.get("scalar_form", "arrays") != "arrays": c = dict(case); c["scalar_form"] = "arrays"; yield c
     if case.get("str_ids"): c = dict(case); c["str_ids"] = False; yield c
